@@ -19,6 +19,7 @@ SEEDED = os.path.join(ROOT, "seeded")
 def sh(cmd, cwd=None, timeout=3600, env=None):
     e = dict(os.environ)
     e["CARGO_NET_OFFLINE"] = "true"
+    e["VERIF_EVIDENCE_DIR"] = os.path.join(ROOT, "out", "evidence-scratch")
     if env:
         e.update(env)
     p = subprocess.run(cmd, shell=True, cwd=cwd, stdout=subprocess.PIPE, stderr=subprocess.STDOUT, text=True, timeout=timeout, env=e)
